@@ -91,19 +91,26 @@ func init() {
 	})
 	sso := []HarnessSpec{
 		{Name: "VH_C01_sso", Replay: "native", Unwind: 400, QuickOnly: true},
-		{Name: "VH_C01_sso", Replay: "native", Unwind: 400, Thorough: true},
+		{Name: "VH_C01_sso_wire", Replay: "native", Unwind: 400, QuickOnly: true},
+		{Name: "VH_C01_sso_full", Replay: "native", Unwind: 400, Thorough: true},
 		{Name: "VH_C01_sso_deep", Replay: "native", Unwind: 400, Thorough: true, MaxPaths: 3000000},
 	}
 	ssoBounds := map[string]string{
-		"quick":    "Response root with signature none/valid/invalid; 0..2 children each one of {assertion (sig none/valid/invalid), EncryptedAssertion of such an assertion, EncryptedAssertion of a non-assertion / unparsable plaintext, wrapper element hiding a genuine signed assertion (plain or encrypted), assertion with a genuine signed assertion nested inside, unrelated element}; raw or DEFLATE presentation; every leaf string symbolic; rtvalidator and certificate-trust outcomes nondeterministic",
-		"thorough": "same with 0..3 children",
+		"quick":    "Response root with signature none/valid/invalid (signature directly under the root or nested in an extension element); 0..2 children (raw presentation; 0..1 child for raw vs DEFLATE) each one of {assertion (sig none/valid/invalid), EncryptedAssertion of such an assertion, EncryptedAssertion of a non-assertion / unparsable plaintext, wrapper element hiding a genuine signed assertion (plain or encrypted), assertion with a genuine signed assertion nested inside, unrelated element}; raw or DEFLATE presentation; every leaf string symbolic; rtvalidator and certificate-trust outcomes nondeterministic",
+		"thorough": "0..2 children with raw and DEFLATE presentation, and 0..3 children with raw presentation",
 	}
 	ssoOutside := []string{"the XML-level part of wrapping / ID-collision / comment / namespace / encoding attacks lives in goxmldsig, etree, encoding/xml and xml-roundtrip-validator and is represented only by the dsig.Validate contract (DESIGN section 2)", "RSA/ECDSA verification and canonicalisation themselves"}
 	for _, id := range []string{"C01", "C02", "C04", "C07"} {
 		reg(&PropSpec{ID: id, Harnesses: sso, Bounds: ssoBounds, Outside: ssoOutside})
 	}
+	ssoNoDeep := []HarnessSpec{}
+	for _, h := range sso {
+		if h.Name != "VH_C01_sso_deep" {
+			ssoNoDeep = append(ssoNoDeep, h)
+		}
+	}
 	for _, id := range []string{"C03", "C09", "C11"} {
-		props[id].Harnesses = append(props[id].Harnesses, sso...)
+		props[id].Harnesses = append(props[id].Harnesses, ssoNoDeep...)
 	}
 	props["C07"].Harnesses = append(props["C07"].Harnesses,
 		HarnessSpec{Name: "VH_C07_decrypt_cert", Replay: "native"},
@@ -155,7 +162,7 @@ func init() {
 		{Name: "VH_C08_retrieve", Replay: "native", Unwind: 400, Panics: true, QuickOnly: true},
 		{Name: "VH_C08_retrieve_deep", Replay: "native", Unwind: 400, Panics: true, Thorough: true},
 	}
-	reg(&PropSpec{ID: "C08", Harnesses: append(append([]HarnessSpec{{Name: "VH_C08_values", Replay: "native", Panics: true}}, retrieve...), sso...),
+	reg(&PropSpec{ID: "C08", Harnesses: append(append([]HarnessSpec{{Name: "VH_C08_values", Replay: "native", Panics: true}}, retrieve...), ssoNoDeep...),
 		Bounds:  map[string]string{"quick": "RetrieveAssertionInfo / ValidateEncodedResponse over the SSO scenario space (0..2 children), one attribute with one value per assertion; accessor helpers on the resulting map with symbolic names", "thorough": "0..3 children"},
 		Outside: []string{"invariance under serialisation (comments, CDATA, character references, white space, canonicalisation variants, digest / signature algorithm support) is etree / encoding/xml / goxmldsig behaviour and is NOT decided here: the claim covers the repo-owned decoding, extraction and accessor logic over the decoded tree only"}})
 	for _, id := range []string{"C01", "C03", "C04", "C05", "C06", "C09"} {
